@@ -1,322 +1,80 @@
 (* C16: the nested rule table built by AddRule matches a packet iff some rule matches under the documented
-   semantics. One "monotone-or" lemma per layer (DESIGN.md Appendix A.2). *)
-From Coq Require Import List NArith ZArith Bool Lia.
+   semantics. Protocol-table layer and the refinement theorem. *)
+From Coq Require Import List NArith ZArith Bool Lia Btauto.
 Import ListNotations.
-From NV Require Import lib.Corr lib.Ip gen.Consts_Firewall model.Firewall.
+From NV Require Import lib.Corr lib.Ip gen.Consts_Firewall model.Firewall proofs.Firewall_layers.
 Open Scope N_scope.
-
-Lemma str_eqb_eq a b : str_eqb a b = true <-> a = b.
-Proof. apply list_eqb_eq. intros; apply N.eqb_eq. Qed.
-
-Lemma Zeqb_eq a b : Z.eqb a b = true <-> a = b.
-Proof. apply Z.eqb_eq. Qed.
-
-(* generic map layer: a Go map whose values are matched after an exact-key lookup *)
-Section MapLayer.
-  Context {K V : Type} (eqb : K -> K -> bool) (eqb_eq : forall a b, eqb a b = true <-> a = b) (mt : V -> bool).
-  Definition omt (o : option V) : bool := match o with Some v => mt v | None => false end.
-  Lemma map_layer k k' v' m x :
-    mt v' = omt (aget eqb k m) || x ->
-    omt (aget eqb k' (aset eqb k v' m)) = omt (aget eqb k' m) || (eqb k k' && x).
-  Proof.
-    intros H. rewrite (aget_aset eqb eqb_eq). destruct (eqb k k') eqn:E; simpl.
-    - apply eqb_eq in E; subst k'. exact H.
-    - now rewrite orb_false_r.
-  Qed.
-End MapLayer.
 
 Section Fixed.
   Variables (cf : fwconf) (incoming : bool) (pkt : packet) (pr : peer) (pl : pool).
 
-  (* ---- local CIDR node ---- *)
-  Definition lsel_ok (sel : csel) : bool :=
-    match sel with
-    | CAny => true
-    | CNone => if negb (nonempty (my_unsafe cf)) || dlca cf then true else any_contains (my_nets cf) (pk_local pkt)
-    | CPfx p => contains p (pk_local pkt)
-    | CBad => false
-    end.
+  Notation Y r := (casel cf pkt pr pl r).
+  Notation pcond := (port_cond incoming pkt).
 
-  Lemma fold_insert_contains l : forall s a,
-    any_contains (fold_left (fun s n => lite_insert n s) l s) a = any_contains s a || any_contains l a.
+  Lemma rule_matches_alt r :
+    rule_matches cf incoming pkt pr pl r = proto_ok r pkt && (pcond (fst (eff_ports r)) (snd (eff_ports r)) && Y r).
   Proof.
-    induction l as [|n l IH]; intros s a; simpl; [now rewrite orb_false_r|].
-    rewrite IH, any_contains_insert. unfold any_contains at 3. simpl.
-    fold (any_contains l a). destruct (contains n a), (any_contains s a), (any_contains l a); reflexivity.
+    unfold rule_matches, casel, rsel, port_ok, port_cond. destruct (eff_ports r); cbn [fst snd]. btauto.
   Qed.
-
-  Lemma lc_add_match sel lc lc' :
-    lc_add cf sel lc = Some lc' -> lc_match lc' pkt = lc_match lc pkt || lsel_ok sel.
-  Proof.
-    unfold lc_add, lc_match, lsel_ok. destruct sel as [| |p|]; intros H.
-    - destruct (negb (nonempty (my_unsafe cf)) || dlca cf); inversion H; subst; simpl.
-      + now rewrite orb_true_r.
-      + rewrite fold_insert_contains. now rewrite orb_assoc.
-    - inversion H; subst; simpl. now rewrite orb_true_r.
-    - inversion H; subst; simpl. rewrite any_contains_insert.
-      destruct (lc_any lc), (contains p (pk_local pkt)), (any_contains (lc_set lc) (pk_local pkt)); reflexivity.
-    - discriminate.
-  Qed.
-
-  Lemma lc_empty_match : lc_match lc_empty pkt = false.
-  Proof. reflexivity. Qed.
-
-  Lemma lc_add_odef sel o lc' :
-    lc_add cf sel (odef lc_empty o) = Some lc' -> lc_match lc' pkt = olc_match o pkt || lsel_ok sel.
-  Proof. intros H. rewrite (lc_add_match _ _ _ H). now destruct o. Qed.
-
-  (* ---- rule node ---- *)
-  Lemma supernets_existsb (t : @tbl lcidr) :
-    existsb (fun lc => lc_match lc pkt) (tbl_supernets (pk_remote pkt) t) =
-    existsb (fun kv => contains (fst kv) (pk_remote pkt) && lc_match (snd kv) pkt) t.
-  Proof.
-    unfold tbl_supernets. induction t as [|[k v] t IH]; simpl; [reflexivity|].
-    destruct (contains k (pk_remote pkt)); simpl; now rewrite IH.
-  Qed.
-
-  Definition rsel (r : rule) : bool := local_ok cf r pkt && sel_ok r pkt pr.
-
-  Lemma local_ok_lsel r : local_ok cf r pkt = lsel_ok (r_local r).
-  Proof. reflexivity. Qed.
-
-  Lemma rn_add_match r rn rn' :
-    rn_add cf r rn = Some rn' -> rn_match rn' pkt pr = rn_match rn pkt pr || rsel r.
-  Proof.
-    unfold rn_add, rsel, sel_ok. rewrite local_ok_lsel.
-    destruct (is_any (r_groups r) (r_host r) (r_cidr r)) eqn:EA.
-    - destruct (lc_add cf (r_local r) (odef lc_empty (rn_any rn))) as [lc|] eqn:EL; [|discriminate].
-      intros H; inversion H; subst; clear H. unfold rn_match; simpl.
-      rewrite (lc_add_odef _ _ _ EL). rewrite andb_true_r.
-      set (L := lsel_ok (r_local r)).
-      destruct (olc_match (rn_any rn) pkt), L; simpl; try reflexivity.
-      all: now rewrite !orb_true_r.
-    - (* groups *)
-      set (G := existsb (fun g => groups_all (fst g) pr && lc_match (snd g) pkt) (rn_groups rn)).
-      set (H0 := olc_match (aget str_eqb (p_name pr) (rn_hosts rn)) pkt).
-      set (L := lsel_ok (r_local r)).
-      destruct (if nonempty (r_groups r) then
-                  match lc_add cf (r_local r) lc_empty with
-                  | Some lc => Some (rn_groups rn ++ [(r_groups r, lc)]) | None => None end
-                else Some (rn_groups rn)) as [gs|] eqn:EG; [|discriminate].
-      assert (HG : existsb (fun g => groups_all (fst g) pr && lc_match (snd g) pkt) gs
-                   = G || (groups_all (r_groups r) pr && L)).
-      { destruct (nonempty (r_groups r)) eqn:EN.
-        - destruct (lc_add cf (r_local r) lc_empty) as [lc|] eqn:EL; [|discriminate].
-          inversion EG; subst gs. rewrite existsb_app. simpl. rewrite orb_false_r.
-          rewrite (lc_add_match _ _ _ EL). reflexivity.
-        - inversion EG; subst gs. unfold groups_all. rewrite EN. simpl. now rewrite orb_false_r. }
-      destruct (if nonempty (r_host r) then
-                  match lc_add cf (r_local r) (odef lc_empty (aget str_eqb (r_host r) (rn_hosts rn))) with
-                  | Some lc => Some (aset str_eqb (r_host r) lc (rn_hosts rn)) | None => None end
-                else Some (rn_hosts rn)) as [hs|] eqn:EH; [|discriminate].
-      assert (HH : olc_match (aget str_eqb (p_name pr) hs) pkt
-                   = H0 || (nonempty (r_host r) && str_eqb (r_host r) (p_name pr) && L)).
-      { destruct (nonempty (r_host r)) eqn:EN.
-        - destruct (lc_add cf (r_local r) (odef lc_empty (aget str_eqb (r_host r) (rn_hosts rn)))) as [lc|] eqn:EL;
-            [|discriminate].
-          inversion EH; subst hs. simpl.
-          apply (map_layer str_eqb str_eqb_eq (fun lc => lc_match lc pkt)).
-          apply (lc_add_odef _ _ _ EL).
-        - inversion EH; subst hs. simpl. now rewrite orb_false_r. }
-      set (C := existsb (fun lc => lc_match lc pkt) (tbl_supernets (pk_remote pkt) (rn_cidr rn))).
-      destruct (match r_cidr r with
-                | CPfx p => match lc_add cf (r_local r) (odef lc_empty (tbl_get p (rn_cidr rn))) with
-                            | Some lc => Some (tbl_insert p lc (rn_cidr rn)) | None => None end
-                | CBad => None
-                | _ => Some (rn_cidr rn) end) as [cs|] eqn:EC; [|discriminate].
-      assert (HC : existsb (fun lc => lc_match lc pkt) (tbl_supernets (pk_remote pkt) cs)
-                   = C || (match r_cidr r with CPfx p => contains p (pk_remote pkt) | _ => false end && L)).
-      { destruct (r_cidr r) as [| |p|] eqn:ER.
-        - inversion EC; subst cs. simpl. now rewrite orb_false_r.
-        - inversion EC; subst cs. simpl. now rewrite orb_false_r.
-        - destruct (lc_add cf (r_local r) (odef lc_empty (tbl_get p (rn_cidr rn)))) as [lc|] eqn:EL; [|discriminate].
-          inversion EC; subst cs. unfold C. rewrite !supernets_existsb. unfold tbl_insert.
-          rewrite <- (contains_masked p).
-          apply (existsb_aset pfx_eqb pfx_eqb_eq (fun k v => contains k (pk_remote pkt) && lc_match v pkt)).
-          rewrite (lc_add_odef _ _ _ EL). unfold tbl_get.
-          destruct (aget pfx_eqb (masked p) (rn_cidr rn)); simpl.
-          + now rewrite andb_orb_distrib_r.
-          + reflexivity.
-        - discriminate. }
-      intros H; inversion H; subst; clear H. unfold rn_match; simpl.
-      rewrite HG, HH, HC. fold G H0 C. simpl.
-      destruct (olc_match (rn_any rn) pkt), G, H0, C, L, (groups_all (r_groups r) pr),
-        (nonempty (r_host r) && str_eqb (r_host r) (p_name pr)),
-        (match r_cidr r with CPfx p => contains p (pk_remote pkt) | _ => false end); reflexivity.
-  Qed.
-
-  Lemma rn_empty_match : rn_match rn_empty pkt pr = false.
-  Proof. reflexivity. Qed.
-
-  Lemma rn_add_odef r o rn' :
-    rn_add cf r (odef rn_empty o) = Some rn' -> rn_match rn' pkt pr = orn_match o pkt pr || rsel r.
-  Proof. intros H. rewrite (rn_add_match _ _ _ H). now destruct o. Qed.
-
-  (* ---- CA node ---- *)
-  Definition csel (r : rule) : bool := ca_ok r pr pl && rsel r.
-
-  Lemma ca_add_match r ca ca' :
-    ca_add cf r ca = Some ca' -> ca_match ca' pkt pr pl = ca_match ca pkt pr pl || csel r.
-  Proof.
-    unfold ca_add, csel, ca_ok.
-    destruct (negb (nonempty (r_ca_sha r)) && negb (nonempty (r_ca_name r))) eqn:E0.
-    - destruct (rn_add cf r (odef rn_empty (ca_any ca))) as [rn|] eqn:ER; [|discriminate].
-      intros H; inversion H; subst; clear H. unfold ca_match; simpl.
-      rewrite (rn_add_odef _ _ _ ER).
-      destruct (orn_match (ca_any ca) pkt pr), (rsel r); simpl; try reflexivity.
-      all: now rewrite ?orb_true_r.
-    - set (S0 := orn_match (aget str_eqb (p_issuer pr) (ca_shas ca)) pkt pr).
-      destruct (if nonempty (r_ca_sha r) then
-                  match rn_add cf r (odef rn_empty (aget str_eqb (r_ca_sha r) (ca_shas ca))) with
-                  | Some rn => Some (aset str_eqb (r_ca_sha r) rn (ca_shas ca)) | None => None end
-                else Some (ca_shas ca)) as [shas|] eqn:ES; [|discriminate].
-      assert (HS : orn_match (aget str_eqb (p_issuer pr) shas) pkt pr
-                   = S0 || (nonempty (r_ca_sha r) && str_eqb (r_ca_sha r) (p_issuer pr) && rsel r)).
-      { destruct (nonempty (r_ca_sha r)) eqn:EN.
-        - destruct (rn_add cf r (odef rn_empty (aget str_eqb (r_ca_sha r) (ca_shas ca)))) as [rn|] eqn:ER;
-            [|discriminate].
-          inversion ES; subst shas. simpl.
-          apply (map_layer str_eqb str_eqb_eq (fun rn => rn_match rn pkt pr)).
-          apply (rn_add_odef _ _ _ ER).
-        - inversion ES; subst shas. simpl. now rewrite orb_false_r. }
-      destruct (if nonempty (r_ca_name r) then
-                  match rn_add cf r (odef rn_empty (aget str_eqb (r_ca_name r) (ca_names ca))) with
-                  | Some rn => Some (aset str_eqb (r_ca_name r) rn (ca_names ca)) | None => None end
-                else Some (ca_names ca)) as [names|] eqn:EN'; [|discriminate].
-      assert (HN : forall n, orn_match (aget str_eqb n names) pkt pr
-                   = orn_match (aget str_eqb n (ca_names ca)) pkt pr
-                     || (nonempty (r_ca_name r) && str_eqb (r_ca_name r) n && rsel r)).
-      { intros n. destruct (nonempty (r_ca_name r)) eqn:EN.
-        - destruct (rn_add cf r (odef rn_empty (aget str_eqb (r_ca_name r) (ca_names ca)))) as [rn|] eqn:ER;
-            [|discriminate].
-          inversion EN'; subst names. simpl.
-          apply (map_layer str_eqb str_eqb_eq (fun rn => rn_match rn pkt pr)).
-          apply (rn_add_odef _ _ _ ER).
-        - inversion EN'; subst names. simpl. now rewrite orb_false_r. }
-      intros H; inversion H; subst; clear H. unfold ca_match; simpl.
-      rewrite HS. fold S0.
-      destruct (pool_ca_name pl (p_issuer pr)) as [n|].
-      + rewrite HN.
-        destruct (orn_match (ca_any ca) pkt pr), S0, (orn_match (aget str_eqb n (ca_names ca)) pkt pr),
-          (nonempty (r_ca_sha r)), (nonempty (r_ca_name r)), (str_eqb (r_ca_sha r) (p_issuer pr)),
-          (str_eqb (r_ca_name r) n), (rsel r); simpl in *; try reflexivity; discriminate.
-      + destruct (orn_match (ca_any ca) pkt pr), S0,
-          (nonempty (r_ca_sha r)), (nonempty (r_ca_name r)), (str_eqb (r_ca_sha r) (p_issuer pr)),
-          (rsel r); simpl in *; try reflexivity; discriminate.
-  Qed.
-
-  Lemma ca_empty_match : ca_match ca_empty pkt pr pl = false.
-  Proof. unfold ca_match; simpl. now destruct (pool_ca_name pl (p_issuer pr)). Qed.
-
-  Lemma ca_add_odef r o ca' :
-    ca_add cf r (odef ca_empty o) = Some ca' -> ca_match ca' pkt pr pl = oca_match o pkt pr pl || csel r.
-  Proof.
-    intros H. rewrite (ca_add_match _ _ _ H). destruct o; simpl; [reflexivity|]. now rewrite ca_empty_match.
-  Qed.
-
-  (* ---- port map ---- *)
-  Lemma port_loop_match r n : forall i pm pm' q,
-    port_add_loop cf r n i pm = Some pm' ->
-    oca_match (aget Z.eqb q pm') pkt pr pl =
-    oca_match (aget Z.eqb q pm) pkt pr pl || (((i <=? q) && (q <? i + Z.of_nat n))%Z && csel r).
-  Proof.
-    induction n as [|n IH]; intros i pm pm' q H; simpl in H.
-    - inversion H; subst.
-      replace ((i <=? q) && (q <? i + Z.of_nat 0))%Z with false; [now rewrite orb_false_r|].
-      symmetry. apply andb_false_iff. destruct (Z.leb_spec i q); [right; apply Z.ltb_ge; lia|now left].
-    - destruct (ca_add cf r (odef ca_empty (aget Z.eqb i pm))) as [ca|] eqn:EC; [|discriminate].
-      rewrite (IH _ _ _ q H).
-      rewrite (map_layer Z.eqb Zeqb_eq (fun ca => ca_match ca pkt pr pl) i q ca pm (csel r) (ca_add_odef _ _ _ EC)).
-      assert (E : ((i <=? q) && (q <? i + Z.of_nat (S n)))%Z
-                  = ((i =? q)%Z || ((i + 1 <=? q) && (q <? i + 1 + Z.of_nat n))%Z)).
-      { destruct (Z.eqb_spec i q), (Z.leb_spec i q), (Z.leb_spec (i + 1) q),
-          (Z.ltb_spec q (i + Z.of_nat (S n))), (Z.ltb_spec q (i + 1 + Z.of_nat n)); simpl; try reflexivity; lia. }
-      rewrite E.
-      destruct (oca_match (aget Z.eqb q pm) pkt pr pl), (i =? q)%Z,
-        ((i + 1 <=? q) && (q <? i + 1 + Z.of_nat n))%Z, (csel r); reflexivity.
-  Qed.
-
-  Definition port_cond (s e : Z) : bool :=
-    in_range s e port_any || (negb (is_icmp (pk_proto pkt)) && in_range s e (pkt_port incoming pkt)).
-
-  Lemma port_add_match r s e pm pm' :
-    port_add cf r s e pm = Some pm' ->
-    port_match pm' incoming pkt pr pl = port_match pm incoming pkt pr pl || (port_cond s e && csel r).
-  Proof.
-    unfold port_add. destruct (Z.ltb_spec e s) as [|Hle]; [discriminate|]. intros H.
-    assert (R : forall q, (((s <=? q) && (q <? s + Z.of_nat (Z.to_nat (e - s + 1))))%Z) = in_range s e q).
-    { intros q. unfold in_range. rewrite Z2Nat.id by lia.
-      destruct (Z.leb_spec s q), (Z.ltb_spec q (s + (e - s + 1))), (Z.leb_spec q e); simpl; try reflexivity; lia. }
-    unfold port_match, port_cond.
-    rewrite !(port_loop_match _ _ _ _ _ _ H), !R.
-    destruct (is_icmp (pk_proto pkt)); simpl.
-    - now rewrite orb_false_r.
-    - destruct (oca_match (aget Z.eqb (pkt_port incoming pkt) pm) pkt pr pl),
-        (oca_match (aget Z.eqb port_any pm) pkt pr pl), (in_range s e (pkt_port incoming pkt)),
-        (in_range s e port_any), (csel r); reflexivity.
-  Qed.
-
-  (* ---- protocol table ---- *)
-  Lemma port_ok_cond r : port_ok incoming r pkt = port_cond (fst (eff_ports r)) (snd (eff_ports r)).
-  Proof. unfold port_ok, port_cond. now destruct (eff_ports r). Qed.
 
   Ltac consts := cbv [proto_any proto_tcp proto_udp proto_icmp proto_icmpv6] in *; cbn [N.eqb Pos.eqb] in *.
+
+  Lemma icmp_not_others p : is_icmp p = true ->
+    (p =? proto_tcp) = false /\ (p =? proto_udp) = false /\ (p =? proto_any) = false.
+  Proof.
+    unfold is_icmp. intros H. apply orb_true_iff in H as [H|H]; apply N.eqb_eq in H; subst p; consts; auto.
+  Qed.
 
   Lemma add_rule_match r t t' :
     add_rule cf r t = Some t' ->
     table_match t' incoming pkt pr pl = table_match t incoming pkt pr pl || rule_matches cf incoming pkt pr pl r.
   Proof.
-    unfold add_rule, rule_matches. rewrite port_ok_cond. unfold eff_ports, proto_ok.
-    rewrite <- !andb_assoc. fold (rsel r). fold (csel r).
+    rewrite rule_matches_alt. unfold add_rule, eff_ports, proto_ok, table_match.
     set (P := pk_proto pkt).
     destruct (r_proto r =? proto_tcp) eqn:E1; [|destruct (r_proto r =? proto_udp) eqn:E2;
       [|destruct (is_icmp (r_proto r)) eqn:E3; [|destruct (r_proto r =? proto_any) eqn:E4; [|discriminate]]]].
     - apply N.eqb_eq in E1.
       destruct (port_add cf r (r_start r) (r_end r) (t_tcp t)) as [pm|] eqn:EP; [|discriminate].
-      intros H; inversion H; subst; clear H. unfold table_match; simpl. fold P.
-      rewrite (port_add_match _ _ _ _ _ EP). unfold is_icmp at 1 2. rewrite E1. simpl.
-      set (pc := port_cond (r_start r) (r_end r)). clearbody pc.
-      consts. destruct (P =? 6); simpl.
-      + destruct (port_match (t_anyp t) incoming pkt pr pl), (port_match (t_tcp t) incoming pkt pr pl), pc, (csel r);
-          reflexivity.
-      + now rewrite orb_false_r.
+      intros H; inversion H; subst t'; clear H. cbn [t_tcp t_udp t_icmp t_anyp].
+      rewrite (port_add_match _ _ _ _ _ _ _ _ _ _ EP). rewrite E1.
+      replace (is_icmp proto_tcp) with false by reflexivity.
+      replace (proto_tcp =? proto_any) with false by reflexivity.
+      replace (proto_tcp =? proto_udp) with false by reflexivity.
+      cbn [fst snd orb andb].
+      destruct (P =? proto_tcp); [btauto|].
+      generalize (if P =? proto_udp then port_match (t_udp t) incoming pkt pr pl
+                  else if is_icmp P then port_match (t_icmp t) incoming pkt pr pl else false). intros b. btauto.
     - apply N.eqb_eq in E2.
       destruct (port_add cf r (r_start r) (r_end r) (t_udp t)) as [pm|] eqn:EP; [|discriminate].
-      intros H; inversion H; subst; clear H. unfold table_match; simpl. fold P.
-      rewrite (port_add_match _ _ _ _ _ EP). unfold is_icmp at 1 2. rewrite E2. simpl.
-      set (pc := port_cond (r_start r) (r_end r)). clearbody pc.
-      consts. destruct (P =? 6) eqn:EP6; simpl.
-      + apply N.eqb_eq in EP6. rewrite EP6. simpl. now rewrite orb_false_r.
-      + destruct (P =? 17); simpl.
-        * destruct (port_match (t_anyp t) incoming pkt pr pl), (port_match (t_udp t) incoming pkt pr pl), pc, (csel r);
-            reflexivity.
-        * now rewrite orb_false_r.
-    - destruct (port_add cf r port_any port_any (t_icmp t)) as [pm|] eqn:EP; [|discriminate].
-      intros H; inversion H; subst; clear H. unfold table_match; simpl. fold P.
-      rewrite (port_add_match _ _ _ _ _ EP). rewrite E3. simpl.
-      set (pc := port_cond port_any port_any). clearbody pc.
-      rewrite E1, E2. simpl.
-      assert (E4 : (r_proto r =? proto_any) = false).
-      { unfold is_icmp in E3. apply orb_true_iff in E3 as [E3|E3]; apply N.eqb_eq in E3; rewrite E3; reflexivity. }
-      rewrite E4. simpl.
-      destruct (P =? proto_tcp) eqn:EP6; [|destruct (P =? proto_udp) eqn:EP17].
-      + apply N.eqb_eq in EP6. unfold is_icmp. rewrite EP6. consts. simpl. now rewrite orb_false_r.
-      + apply N.eqb_eq in EP17. unfold is_icmp. rewrite EP17. consts. simpl. now rewrite orb_false_r.
-      + destruct (is_icmp P); simpl.
-        * destruct (port_match (t_anyp t) incoming pkt pr pl), (port_match (t_icmp t) incoming pkt pr pl), pc, (csel r);
-            reflexivity.
-        * now rewrite orb_false_r.
+      intros H; inversion H; subst t'; clear H. cbn [t_tcp t_udp t_icmp t_anyp].
+      rewrite (port_add_match _ _ _ _ _ _ _ _ _ _ EP). rewrite E2.
+      replace (is_icmp proto_udp) with false by reflexivity.
+      replace (proto_udp =? proto_any) with false by reflexivity.
+      cbn [fst snd orb andb].
+      destruct (P =? proto_tcp) eqn:EP6.
+      + apply N.eqb_eq in EP6. rewrite EP6. replace (proto_tcp =? proto_udp) with false by reflexivity. btauto.
+      + destruct (P =? proto_udp); [btauto|].
+        generalize (if is_icmp P then port_match (t_icmp t) incoming pkt pr pl else false). intros b. btauto.
+    - destruct (icmp_not_others _ E3) as (_ & _ & E4).
+      destruct (port_add cf r port_any port_any (t_icmp t)) as [pm|] eqn:EP; [|discriminate].
+      intros H; inversion H; subst t'; clear H. cbn [t_tcp t_udp t_icmp t_anyp].
+      rewrite (port_add_match _ _ _ _ _ _ _ _ _ _ EP). rewrite E4.
+      cbn [fst snd orb andb].
+      destruct (is_icmp P) eqn:EI.
+      + destruct (icmp_not_others _ EI) as (-> & -> & _). btauto.
+      + destruct (P =? proto_tcp); [btauto|]. destruct (P =? proto_udp); btauto.
     - destruct (port_add cf r (r_start r) (r_end r) (t_anyp t)) as [pm|] eqn:EP; [|discriminate].
-      intros H; inversion H; subst; clear H. unfold table_match; simpl. fold P.
-      rewrite (port_add_match _ _ _ _ _ EP). rewrite E4. simpl.
-      set (pc := port_cond (r_start r) (r_end r)). clearbody pc.
-      destruct (port_match (t_anyp t) incoming pkt pr pl), pc, (csel r); simpl; try reflexivity.
-      all: now rewrite ?orb_true_r.
+      intros H; inversion H; subst t'; clear H. cbn [t_tcp t_udp t_icmp t_anyp].
+      rewrite (port_add_match _ _ _ _ _ _ _ _ _ _ EP).
+      cbn [fst snd orb andb].
+      generalize (if P =? proto_tcp then port_match (t_tcp t) incoming pkt pr pl
+                  else if P =? proto_udp then port_match (t_udp t) incoming pkt pr pl
+                  else if is_icmp P then port_match (t_icmp t) incoming pkt pr pl else false). intros b. btauto.
   Qed.
 
   Lemma empty_table_match : table_match empty_table incoming pkt pr pl = false.
   Proof.
-    unfold table_match, empty_table, port_match; simpl.
+    unfold table_match, empty_table, port_match; cbn [t_tcp t_udp t_icmp t_anyp aget oca_match].
     destruct (is_icmp (pk_proto pkt)), (pk_proto pkt =? proto_tcp), (pk_proto pkt =? proto_udp); reflexivity.
   Qed.
 
@@ -324,7 +82,7 @@ Section Fixed.
     add_rules cf rs t = Some t' ->
     table_match t' incoming pkt pr pl = table_match t incoming pkt pr pl || existsb (rule_matches cf incoming pkt pr pl) rs.
   Proof.
-    induction rs as [|r rs IH]; intros t t' H; simpl in *.
+    induction rs as [|r rs IH]; intros t t' H; cbn [add_rules existsb] in *.
     - inversion H; subst. now rewrite orb_false_r.
     - destruct (add_rule cf r t) as [t1|] eqn:E; [|discriminate].
       rewrite (IH _ _ H), (add_rule_match _ _ _ E). now rewrite orb_assoc.
